@@ -1,5 +1,5 @@
 (* C05 - after start-up every block has a valid output, taken from the documented sources. *)
-From Verif Require Import Values Init InitProofs InitFatalProofs.
+From Verif Require Import Values Init InitProofs InitFatalProofs InitLogProofs.
 Open Scope list_scope.
 Open Scope Z_scope.
 
@@ -82,6 +82,19 @@ Example C05_fatal_nonvacuous :
                      is_initdef := false; is_handler_sets := true; is_dests := [1%nat] |}; p ]) = true.
 Proof. vm_compute. repeat split; reflexivity. Qed.
 
+(* "initialised from its sources ...": a routine is only ever called for a block that has that
+   source - _restore_state only for persistent blocks with a saved state, init_from_value only
+   with an initdef, init_async only with a positive init_timeout *)
+Theorem C05_routines_only_where_they_exist : forall T c,
+  In c (ilog (fst (fst (run_init T)))) ->
+  match c with
+  | CRestore b => is_persistent (spec_of T b) = true /\ is_restore (spec_of T b) <> RAbsent
+  | CFromValue b => is_initdef (spec_of T b) = true
+  | CAsync b => exists tmo sc, is_async (spec_of T b) = Some (tmo, sc) /\ 0 < tmo
+  | CRegular _ | CHandler _ => True
+  end.
+Proof. exact routines_only_where_they_exist. Qed.
+
 (* NOT proved here: "whether start-up succeeds does not depend on the creation order" for the
    model.  It is decided per configuration by running the implementation in every creation order
    (icase_monitor, ic_perm_ok) - exhaustive for the sampled configurations, not a theorem. *)
@@ -96,3 +109,4 @@ Print Assumptions C05_async_wait_bound.
 Print Assumptions C05_finishes_within_timeout.
 Print Assumptions C05_success_all_initialised.
 Print Assumptions C05_failing_regular_is_fatal.
+Print Assumptions C05_routines_only_where_they_exist.
